@@ -24,6 +24,17 @@ def _loc_key(x):
             return (1 << 30, 0)
 
 
+def _vtxt(e, inl):
+    """text with named constants printed as their values (naming a literal does not change an identity)"""
+    import astu
+    old = astu._VALUES[0]
+    astu._VALUES[0] = True
+    try:
+        return txt(e, inl)
+    finally:
+        astu._VALUES[0] = old
+
+
 def canon_env(fn):
     """rename-invariant identities for the locals and parameters of fn: a local with an initialiser is identified by the text of
     that initialiser (other locals inlined), one without by its type and its ordinal among such locals; parameters by position"""
@@ -51,7 +62,7 @@ def canon_env(fn):
             nread += 1
             env[x["d"]] = "read#%d<%s>" % (nread, (x.get("t") or "").replace("const ", ""))
         elif x.get("init") is not None:
-            env[x["d"]] = "=" + txt(x["init"], inl).replace(" ", "")[:80]
+            env[x["d"]] = "=" + _vtxt(x["init"], inl).replace(" ", "")[:80]
         else:
             t = (x.get("t") or "").replace("const ", "")
             cnt[t] = cnt.get(t, 0) + 1
@@ -62,7 +73,7 @@ def canon_env(fn):
 
     def rv(n):
         if n.get("k") == "RangeFor" and isinstance(n.get("var"), dict) and "d" in n["var"]:
-            env[n["var"]["d"]] = "elem:" + txt(n.get("range"), inl).replace(" ", "")[:60]
+            env[n["var"]["d"]] = "elem:" + _vtxt(n.get("range"), inl).replace(" ", "")[:60]
     walk(fn.get("body"), rv)
     return env
 
@@ -443,8 +454,46 @@ def inventory(facts):
     return rows
 
 
+def name_universe(facts):
+    """every field, function and namespace-scope variable name of the analysed program"""
+    names = set()
+    for r in facts.records():
+        for f in r.get("fields", []):
+            names.add(f.get("n"))
+    for f in functions_by(facts).values():
+        names.add(f["name"])
+    try:
+        for g in facts.globals():
+            names.add((g.get("n") or g.get("qname") or "").split("::")[-1])
+    except Exception:
+        pass
+    names.discard(None)
+    return names
+
+
+_RENAMES = [None, None]      # (names that exist now, names that existed when the table was reviewed)
+
+
+def _rn(ids, universe):
+    """identity list with the names outside `universe` made anonymous: a reviewed name that no longer exists anywhere in the
+    program and a current name that did not exist at review time are the two ends of a rename"""
+    if universe is None:
+        return ids
+    return sorted(("~renamed" if (isinstance(i, str) and re.match(r"^[A-Za-z_][A-Za-z_0-9]*$", i) and i not in universe) else i) for i in ids)
+
+
 def _cmp(want, got):
     """(status, detail pieces) for one reviewed call site against one current call site"""
+    r0 = _cmp0(want, got)
+    if r0[0] != "unrecognised" or _RENAMES[0] is None or not _RENAMES[1]:
+        return r0
+    # names that ceased to exist / came into existence since the review are read as renamed
+    both = _RENAMES[0] & _RENAMES[1]
+    r1 = _cmp0({"lits": [dict(w, ids=_rn(w["ids"], both)) for w in want["lits"]]}, {"lits": [dict(g, ids=_rn(g["ids"], both)) for g in got["lits"]]})
+    return r1 if r1[0] != "unrecognised" else r0
+
+
+def _cmp0(want, got):
     rest = list(got["lits"])
     moved, lost = [], []
     for w in want["lits"]:
@@ -472,14 +521,50 @@ def _defined_names(facts, cls):
 def obligations(facts, records=None):
     """the call sites of one structural operation inside one function are compared as a bag (swapping the branches of an if / else
     that both call it does not matter): exact matches first, then what is left is paired in source order"""
-    sp = json.load(open(os.path.join(VERIF, "spec", "triggers.json")))["triggers"]
+    spj = json.load(open(os.path.join(VERIF, "spec", "triggers.json")))
+    sp = spj["triggers"]
     cur = inventory(facts)
+    _RENAMES[0], _RENAMES[1] = name_universe(facts), set(spj.get("names") or [])
     out = []
     groups = {}
     for key in sorted(sp):
         if records is not None and not any(key.startswith(r + "::") for r in records):
             continue
         groups.setdefault(key.rsplit("#", 1)[0], []).append(key)
+    # renamed private helpers: a reviewed caller->operation pair that is gone, whose caller (or operation) is no longer a function
+    # of the class, is the one pair of the same class unknown to the reviewed table with the other end unchanged and the same
+    # number of call sites (the conditions are then compared as usual, so a moved boundary is still reported)
+    all_bases = set(k.rsplit("#", 1)[0] for k in sp)
+    cur_bases = {}
+    for k in cur:
+        cur_bases.setdefault(k.rsplit("#", 1)[0], []).append(k)
+    spec_callees = {}
+    for b in all_bases:
+        spec_callees.setdefault(b.split("::")[0], set()).add(b.split("->")[1])
+    spec_callers = {}
+    for b in all_bases:
+        spec_callers.setdefault(b.split("::")[0], set()).add(b.split("::", 1)[1].split("->")[0])
+    for base, keys in sorted(groups.items()):
+        if base in cur_bases:
+            continue
+        cls = base.split("::")[0]
+        caller, callee = base.split("::", 1)[1].split("->")
+        defined = _defined_names(facts, cls)
+        cands = []
+        for b2, ks2 in cur_bases.items():
+            if b2 in all_bases or b2.split("::")[0] != cls or len(ks2) != len(keys):
+                continue
+            caller2, callee2 = b2.split("::", 1)[1].split("->")
+            ok_caller = caller2 == caller or (caller not in defined and caller2 not in spec_callers.get(cls, ()))
+            ok_callee = callee2 == callee or (callee not in defined and callee2 not in spec_callees.get(cls, ()) and callee2 in defined)
+            if ok_caller and ok_callee and (caller2 != caller or callee2 != callee):
+                cands.append(b2)
+        if len(cands) > 1:
+            exact = [b2 for b2 in cands if all(any(_cmp(sp[k], cur[k2])[0] == "discharged" for k2 in cur_bases[b2]) for k in keys)]
+            cands = exact if len(exact) == 1 else cands
+        if len(cands) == 1:
+            for i, k2 in enumerate(sorted(cur_bases[cands[0]])):
+                cur["%s#%d" % (base, i)] = cur[k2]
     for base, keys in sorted(groups.items()):
         what = base.split("->")[1]
         have = [k for k in sorted(cur) if k.rsplit("#", 1)[0] == base]
